@@ -1,6 +1,6 @@
 CONSTANTS
   NDocs = 120
-  NOperators = 45
+  NOperators = 46
   MaxSite = 14
 INIT Init
 NEXT Next
